@@ -1,0 +1,76 @@
+//go:build verif
+
+// Contracts for canonical.go (C18) and the pointer-field writers it goes through.
+package capnp
+
+//@ spec
+//@ // byte j of the data section of s
+//@ func dbyte(s Struct, j int) byte { return s.seg.data[int(M(s.off)+M(j))] }
+//@ // pointer slot i of s as a raw word
+//@ func pslot(s Struct, i int) uint64 { return LE64(s.seg.data, int(M(s.off)+M(s.size.DataSize)+8*M(i))) }
+//@ end
+
+// ---------------------------------------------------------------- pointer-field writers
+
+// writePtr is not verified (deep copy, far and double-far emission: DESIGN 5.4); what its callers
+// rely on is stated and ASSUMED: it fails or succeeds without panicking for a valid slot.
+//@ func Segment.writePtr -> err
+//@   props C18
+//@   trusted
+//@   requires segOK(s) && M(off)+8 <= M(len(s.data)) && wfPtr(src)
+//@   modifies *
+
+//@ func Struct.SetPtr -> err
+//@   props C04 C18
+//@   requires wfStruct(p) && wfPtr(src)
+//@   requires idx: p.seg != nil && i < p.size.PointerCount
+//@   modifies *
+
+//@ func PointerList.Set -> err
+//@   props C04 C18
+//@   requires wfList(p.List) && wfPtr(v)
+//@   requires idx: p.seg != nil && 0 <= i && i < int(p.length)
+//@   modifies *
+
+//@ func List.allocSize -> r
+//@   props C16 C18
+//@   requires wfList(p) && p.length < 1<<29
+//@   -- bytes occupied by the list's content, plus the tag word of a composite list
+//@   ensures implies(p.seg == nil, r == 0)
+//@   ensures implies(p.seg != nil && p.flags&isCompositeList == 0, M(r) == listBytes(p))
+//@   ensures implies(p.seg != nil && p.flags&isCompositeList != 0, M(r) == listBytes(p)+8)
+
+// ---------------------------------------------------------------- canonical.go
+
+// "trailing zero words of every struct truncated": the canonical size cuts exactly the trailing
+// zero words of the data section and the trailing null pointers - nothing that is non-zero is cut,
+// and the last word kept is non-zero.
+//@ func canonicalStructSize -> sz
+//@   props C18
+//@   requires wfStruct(s)
+//@   modifies nothing
+//@   ensures implies(s.seg == nil, sz.DataSize == 0 && sz.PointerCount == 0)
+//@   ensures implies(s.seg != nil, sz.DataSize&7 == 0 && M(sz.DataSize) <= M(s.size.DataSize)+7 && sz.PointerCount <= s.size.PointerCount)
+//@   ensures datacut: implies(s.seg != nil, forall(int(sz.DataSize), int(s.size.DataSize), func(j int) bool { return dbyte(s, j) == 0 }))
+//@   ensures datamin: implies(s.seg != nil && sz.DataSize != 0, exists(int(sz.DataSize)-8, int(sz.DataSize), func(j int) bool { return j < int(s.size.DataSize) && dbyte(s, j) != 0 }))
+//@   ensures ptrcut: implies(s.seg != nil, forall(int(sz.PointerCount), int(s.size.PointerCount), func(i int) bool { return pslot(s, i) == 0 }))
+//@   ensures ptrmin: implies(s.seg != nil && sz.PointerCount != 0, pslot(s, int(sz.PointerCount)-1) != 0)
+//@   loop 0 "n > 0 && data[n-1] == 0"
+//@     invariant 0 <= n && n <= len(data) && sz.DataSize == 0 && sz.PointerCount == 0
+//@     invariant forall(n, len(data), func(j int) bool { return data[j] == 0 })
+//@   loop 1 "i >= 0"
+//@     invariant -1 <= i && i < int32(s.size.PointerCount) && sz.PointerCount == 0
+//@     invariant forall(int(i)+1, int(s.size.PointerCount), func(k int) bool { return pslot(s, k) == 0 })
+
+// canonicalList, canonicalPtr, fillCanonicalStruct and Canonicalize recurse through writePtr and
+// allocate between reads of the source; without a machine-checked frame for allocation over all
+// segments (DESIGN 5.18) they are not verified as a whole.  PARTIAL contract: the two facts below
+// about the data-only branch are decided, nothing else of the function is.
+//@ func canonicalList -> r, err
+//@   props C18
+//@   partial
+//@   requires wfList(l) && l.length < 1<<29 && wfSegW(dst)
+//@   -- the bytes copied out of the source list lie inside the source list's segment
+//@   assert before "_, newAddr, err := alloc(dst, sz)" srcrange: M(l.off)+M(sz) <= M(len(l.seg.data))
+//@   -- a composite list keeps its tag word: the elements start one word after the allocation
+//@   assert before "end, _ := l.off.addSize(sz)" tagkept: implies(l.flags&isCompositeList != 0, M(cl.off) == M(newAddr)+8)
